@@ -606,7 +606,11 @@ class Shaper:
             ret = sub[-1][1]
             sub = sub[:-1]
         elif any(x[0] == "ret" for x in _flat(sub)):
-            ret = "?multi-return"
+            ret = _single_return(sub)
+            if ret is None:
+                ret = "?multi-return"
+            else:
+                sub = _strip_rets(sub)
         if yield_body is not None:
             sub = _subst_yield(sub, yield_body)
         out.extend(sub)
@@ -818,6 +822,46 @@ def _token_paths(body):
         if tb and not ta:
             return _token_paths(b)
     return keep
+
+
+def _single_return(term):
+    """the one value a term returns when its other exits are raises (guard-clause / if-else forms)"""
+    vals = set()
+
+    def walk(t):
+        for it in t:
+            if it[0] == "ret":
+                vals.add(it[1])
+            elif it[0] == "if":
+                walk(it[2])
+                walk(it[3])
+            elif it[0] in ("for", "while"):
+                if any(x[0] == "ret" for x in _flat(it[2])):
+                    vals.add(None)
+            elif it[0] == "forelse":
+                if any(x[0] == "ret" for x in _flat(it[2])) or any(x[0] == "ret" for x in _flat(it[3])):
+                    vals.add(None)
+            elif it[0] == "handler":
+                walk(it[1])
+
+    walk(term)
+    if len(vals) == 1 and None not in vals:
+        return next(iter(vals))
+    return None
+
+
+def _strip_rets(term):
+    out = []
+    for it in term:
+        if it[0] == "ret":
+            continue
+        if it[0] == "if":
+            out.append(("if", it[1], _strip_rets(it[2]), _strip_rets(it[3])))
+        elif it[0] == "handler":
+            out.append(("handler", _strip_rets(it[1])))
+        else:
+            out.append(it)
+    return out
 
 
 def _breaks_after_tokens(body):
